@@ -47,7 +47,7 @@ def surface_models(spec):
     return out
 
 
-def check_trace(out, spec, rec, w, tag='', tol_scale=1.0, check_nonfinite=True, ns=None):
+def check_trace(out, spec, rec, w, tag='', tol_scale=1.0, check_nonfinite=True, ns=None, parabola_kf=None):
     """Evaluate all clauses on one recorded trace.  `w` wavelength in um (scalar).  Returns dict of stats."""
     if ns is None:
         ns, _ = GL.media(spec, w)
@@ -90,10 +90,21 @@ def check_trace(out, spec, rec, w, tag='', tol_scale=1.0, check_nonfinite=True, 
             Dl = frame.to_local_dir(D[:, g])
             Din = Dl_in[:, g]
             scale_p = np.maximum(np.maximum(np.max(np.abs(Pl), axis=0), Lk), np.max(np.abs(Pl_prev[:, g]), axis=0))
+            # known finding <parabola_kf>: the conic root (-b - sqrt(b^2-4ac))/(2a), a = c (L^2+M^2+(1+k)N^2), loses
+            # ~1e-15/|a| of the distance along the ray when |1+k| << 1 and the ray is almost axial.  Inside that region
+            # the clauses of this surface are weakened by exactly that displacement along the ray.
+            terr = np.zeros(len(g))
+            if parabola_kf and shape.typ == 'standard' and shape.c != 0 and abs(1 + shape.k) < 0.05 and \
+                    out.kf_open(parabola_kf):
+                with np.errstate(all='ignore'):
+                    a_dir = np.abs(shape.c * (Din[0] ** 2 + Din[1] ** 2 + (1 + shape.k) * Din[2] ** 2))
+                    terr = np.where((a_dir > 0) & (a_dir < 1e-4 * abs(shape.c)), 1e-15 / a_dir, 0.0)
+                if np.any(terr > 0):
+                    out.region(parabola_kf)
             # (1) on the prescribed shape
             res = Pl[2] - shape.sag(Pl[0], Pl[1])
             if shape.closed_form:
-                tol = 1e-9 * scale_p * tol_scale
+                tol = 1e-9 * scale_p * tol_scale + terr
             else:
                 tol = np.full_like(res, 10 * float(sdict.get('tol') or 1e-6))
             bad = ~(np.abs(res) <= tol)
@@ -120,14 +131,14 @@ def check_trace(out, spec, rec, w, tag='', tol_scale=1.0, check_nonfinite=True, 
             if is_mirror:
                 want = Din - 2 * cos_i * nh
                 err = np.sqrt(np.sum((Dl - want) ** 2, axis=0))
-                bad = ~(err <= 1e-9 * tol_scale)
+                bad = ~(err <= 1e-9 * tol_scale + 4 * abs(shape.c) * terr)
                 out.expect('reflection_law' + tag, not np.any(bad), surface=k, err=err[bad][:3], rays=g[bad][:3])
                 out.expect('mirror_half_space' + tag, np.all(cos_i * cos_o <= 1e-12), surface=k)
             else:
                 v = n2 * Dl - n1 * Din
                 cr = np.cross(v.T, nh.T).T
                 err = np.sqrt(np.sum(cr * cr, axis=0))
-                bad = ~(err <= 1e-9 * max(n1, n2) * tol_scale)
+                bad = ~(err <= 1e-9 * max(n1, n2) * tol_scale + 4 * max(n1, n2) * abs(shape.c) * terr)
                 out.expect('snell_law' + tag, not np.any(bad), surface=k, err=err[bad][:3], rays=g[bad][:3],
                            n1=n1, n2=n2, shape=shape.typ)
                 out.expect('refraction_half_space' + tag, np.all(cos_i * cos_o >= -1e-12), surface=k,
@@ -135,7 +146,7 @@ def check_trace(out, spec, rec, w, tag='', tol_scale=1.0, check_nonfinite=True, 
             # (5) optical path
             dopd = opd[g] - opd_prev[g]
             want = n1 * seglen
-            bad = ~(np.abs(dopd - want) <= 1e-10 * (np.abs(want) + Ltot) * tol_scale +
+            bad = ~(np.abs(dopd - want) <= 1e-10 * (np.abs(want) + Ltot) * tol_scale + 2 * n1 * terr +
                     (0 if shape.closed_form else 20 * n1 * float(sdict.get('tol') or 1e-6)))
             out.expect('optical_path' + tag, not np.any(bad), surface=k, got=dopd[bad][:3], want=want[bad][:3],
                        rays=g[bad][:3])
